@@ -159,8 +159,11 @@ def _mgr():
     return mgr
 
 
-def _names(nfiles, idx):
+def _names(nfiles, idx, rel=-1):
     names = ["f%d.png" % i for i in range(nfiles)]
+    if rel >= 0:
+        # every approved image also holds index_rel.wtml (a name that sorts around 'index.wtml')
+        names[rel] = "index_rel.wtml"
     if idx >= 0:
         names[idx] = "index.wtml"
     return names
@@ -182,8 +185,8 @@ def _publish(w, mgr):
     return False
 
 
-def _one_run(nfiles, idx, crash_at, during, rerun_idx):
-    names = _names(nfiles, idx)
+def _one_run(nfiles, idx, crash_at, during, rerun_idx, rel=-1):
+    names = _names(nfiles, idx, rel)
     w = World({"img1": names})
     w.crash_at, w.crash_during = crash_at, during
     mgr = _mgr()
@@ -203,7 +206,7 @@ def _one_run(nfiles, idx, crash_at, during, rerun_idx):
         else:
             ok = ok and "img1" in w.approved
             # second run, the OS may list the directory in another order now
-            names2 = _names(nfiles, rerun_idx if idx >= 0 else -1)
+            names2 = _names(nfiles, rerun_idx if idx >= 0 else -1, -1 if rel < 0 else (rel if rel != rerun_idx else idx))
             w.approved["img1"] = names2
             w.crash_at = -1
             crashed2 = _publish(w, mgr)
@@ -225,6 +228,19 @@ def chk_publish_crash_n1(idx: int, crash_at: int, during: bool, rerun_idx: int) 
     post: _
     """
     return _one_run(1, idx, crash_at, during, rerun_idx)
+
+
+def chk_publish_lookalike_names(idx: int, rel: int, crash_at: int, during: bool, rerun_idx: int) -> bool:
+    """
+    3 files of which one is index.wtml and one is a look-alike (index_rel.wtml / Index.wtml.bak) at symbolic listing
+    positions: index.wtml still goes last, whatever else the directory holds.
+
+    pre: 0 <= idx < 3 and 0 <= rel < 3 and rel != idx
+    pre: -1 <= crash_at <= 3
+    pre: 0 <= rerun_idx < 3
+    post: _
+    """
+    return _one_run(3, idx, crash_at, during, rerun_idx, rel)
 
 
 def chk_publish_crash_n2(idx: int, crash_at: int, during: bool, rerun_idx: int) -> bool:
